@@ -49,7 +49,7 @@ CFGS = configs()
 
 def space(tier):
     return {"configurations": len(CFGS), "noise": NOISES, "metrics": ["planar", f"latlon at {ANCHOR}, {UNIT} m per unit"],
-            "zero_length_positions": ZERO_POS, "forms": ["pairs", "(lat, lon, time) triples"]}
+            "zero_length_positions": ZERO_POS, "forms": ["pairs", "(lat, lon, float time) triples", "(lat, lon, datetime) triples (traces of length <= 2)"]}
 
 
 def cases(tier):
@@ -63,6 +63,15 @@ def cases(tier):
             if tier == "quick" and al.nedges(mask) > (4 if metric == "planar" else 2):
                 continue
             yield {"metric": metric, "pos": "ZERO", "n": 3, "mask": mask, "tier": tier}
+    # larger named graphs (chains, cycles, re-converging roads) with sparse traces: the internal consistency guards
+    # ("monotonic probability", "logprob > 0") must not fire on them either
+    yield from special_cases(tier)
+
+
+def special_cases(tier):
+    from mc import mspace as _ms
+    for name, pos, g in _ms.special_graphs():
+        yield {"metric": "planar", "pos": pos, "special": name, "tier": tier}
 
 
 def to_ll(p):
@@ -88,18 +97,29 @@ def run_case(case):
     res = dict(n=0, st=0, tr=0, tv=0, nt=0, out=[], v=[], k=[])
     outs = set()
     latlon = case["metric"] == "latlon"
-    pos = al.GRID if case["pos"] == "GRID" else ZERO_POS
-    g0 = al.graph_from_mask(case["n"], case["mask"], pos)
+    if "special" in case:
+        from checks import _pathspace as _ps
+        g0 = [g for name, pos_, g in ms.special_graphs() if name == case["special"]][0]
+    else:
+        pos = al.GRID if case["pos"] == "GRID" else ZERO_POS
+        g0 = al.graph_from_mask(case["n"], case["mask"], pos)
     if latlon:
         graph = {k: (to_ll(v[0]), list(v[1])) for k, v in g0.items()}
     else:
         graph = g0
     mp = maps.inmem(graph, use_latlon=latlon)
-    traces = [[tuple(p) for p in case["trace"]]] if "trace" in case else trace_list(case)
-    cfgs = [case["cfg"]] if "cfg" in case else CFGS
+    if "trace" in case:
+        traces = [[tuple(p) for p in case["trace"]]]
+    elif "special" in case:
+        traces = _ps.special_traces(case["pos"], g0)
+    else:
+        traces = trace_list(case)
+    cfgs = [case["cfg"]] if "cfg" in case else (CFGS if "special" not in case else [c for c in CFGS if c["ne"] and c["obs_noise"] in (0.1, 1.0, 3.0)])
     for trace in traces:
         tr = [to_ll(p) for p in trace] if latlon else trace
         tr3 = [(p[0], p[1], 1000.0 + 7.0 * i) for i, p in enumerate(tr)]
+        import datetime as _dt
+        tr3d = [(p[0], p[1], _dt.datetime(2020, 1, 1, 12, 0, 0) + _dt.timedelta(seconds=7 * i)) for i, p in enumerate(tr)]
         for c in cfgs:
             cc = dict(c)
             if latlon:
@@ -107,7 +127,8 @@ def run_case(case):
                     if cc.get(key) is not None:
                         cc[key] = cc[key] * UNIT
             got = []
-            for t in (tr, tr3):
+            forms = (tr, tr3, tr3d) if (len(tr) <= 2 or "trace" in case) else (tr, tr3)
+            for t in forms:
                 m = ms.make_matcher(mp, cc)
                 try:
                     r = m.match(list(t))
@@ -120,14 +141,16 @@ def run_case(case):
             res["st"] += 1
             res["tv"] += 1
             res["nt"] += 1
-            mini = {"metric": case["metric"], "pos": case["pos"], "n": case["n"], "mask": case["mask"], "trace": trace, "cfg": c}
+            mini = {k: case[k] for k in ("metric", "pos", "n", "mask", "special") if k in case}
+            mini.update({"trace": trace, "cfg": c})
             where = f"{case['metric']} {al.describe_graph(g0)} trace {trace} cfg {c}"
-            for form, g in zip(("pairs", "triples"), got):
+            for form, g in zip(("pairs", "triples with a float time", "triples with a datetime time"), got):
                 if g[0] in ("EXC", "BAD"):
                     res["v"].append({"msg": f"{where} ({form}): match " + ("raised " if g[0] == "EXC" else "returned ") + g[1][:300], "case": mini})
-            if got[0][0] not in ("EXC", "BAD") and got[1][0] not in ("EXC", "BAD") and got[0] != got[1]:
-                res["v"].append({"msg": f"{where}: result with (lat, lon, time) triples {got[1][:3]} differs from the result with pairs {got[0][:3]}",
-                                 "case": mini})
+            for gi in range(1, len(got)):
+                if got[0][0] not in ("EXC", "BAD") and got[gi][0] not in ("EXC", "BAD") and got[0] != got[gi]:
+                    res["v"].append({"msg": f"{where}: result with (lat, lon, time) triples {got[gi][:3]} differs from the result with pairs {got[0][:3]}",
+                                     "case": mini})
             outs.add(got[0][:2])
     res["out"] = sorted(outs, key=repr)[:1000]
     res["v"] = res["v"][:20]
@@ -136,5 +159,6 @@ def run_case(case):
 
 def describe(case):
     d = {k: case[k] for k in case if k != "tier"}
-    d["graph"] = al.describe_graph(al.graph_from_mask(case["n"], case["mask"], al.GRID if case["pos"] == "GRID" else ZERO_POS))
+    if "special" not in case:
+        d["graph"] = al.describe_graph(al.graph_from_mask(case["n"], case["mask"], al.GRID if case["pos"] == "GRID" else ZERO_POS))
     return d
